@@ -124,7 +124,12 @@ def _int_of_symstr(s, base=10):
             prev_us = True
         else:
             raise ValueError('invalid literal for int() with base %d' % base)
-    return mkint(z3.simplify(-val if neg else val))
+    res = z3.simplify(-val if neg else val)
+    if base == 10 and not neg and all(k == 'digit' for k, _ in cls) and \
+            all((48 <= c <= 57) if isinstance(c, int) else True for c in cps):
+        # remember which digit string spelled this value: str() of the same value gives these digits back (if canonical)
+        E.cur().uf_cache[('intstr', res.get_id())] = (res, tuple(cps))
+    return mkint(res)
 
 
 _NUMCLASS = {}
@@ -377,6 +382,12 @@ def m_float(*a):
 def digits_of(z, e=None):
     """str(n) for a non-negative symbolic int: fork on the number of digits (bounded), digits by arithmetic."""
     e = E.cur()
+    zs = z3.simplify(z)
+    hit = e.uf_cache.get(('intstr', zs.get_id()))
+    if hit is not None and hit[0].eq(zs):
+        cps = hit[1]
+        if len(cps) == 1 or e.must(zcp(cps[0]) != 48):
+            return [zcp(c) if not isinstance(c, int) else c for c in cps]      # the canonical spelling it was read from
     maxd = 20
     nd = None
     p = 10
